@@ -17,19 +17,19 @@ import (
 
 	"github.com/bronlabs/bron-crypto/pkg/base/datastructures/hashmap"
 	"github.com/bronlabs/bron-crypto/pkg/base/serde"
+	"github.com/bronlabs/bron-crypto/pkg/mpc"
 	"github.com/bronlabs/bron-crypto/pkg/mpc/dkg/canetti"
 	"github.com/bronlabs/bron-crypto/pkg/mpc/dkg/gennaro"
-	"github.com/bronlabs/bron-crypto/pkg/mpc/signatures/schnorr/lindell22/signing"
-	"github.com/bronlabs/bron-crypto/pkg/proofs/sigma/compiler/fiatshamir"
-	"github.com/bronlabs/bron-crypto/pkg/mpc"
 	"github.com/bronlabs/bron-crypto/pkg/mpc/dkg/trusteddealer"
-	"github.com/bronlabs/bron-crypto/pkg/mpc/session"
-	"github.com/bronlabs/bron-crypto/pkg/network"
-	ntu "github.com/bronlabs/bron-crypto/pkg/network/testutils"
 	"github.com/bronlabs/bron-crypto/pkg/mpc/redistribute"
+	"github.com/bronlabs/bron-crypto/pkg/mpc/session"
 	"github.com/bronlabs/bron-crypto/pkg/mpc/sharing/accessstructures"
 	"github.com/bronlabs/bron-crypto/pkg/mpc/sharing/accessstructures/unanimity"
 	"github.com/bronlabs/bron-crypto/pkg/mpc/sharing/vss/feldman"
+	"github.com/bronlabs/bron-crypto/pkg/mpc/signatures/schnorr/lindell22/signing"
+	"github.com/bronlabs/bron-crypto/pkg/network"
+	ntu "github.com/bronlabs/bron-crypto/pkg/network/testutils"
+	"github.com/bronlabs/bron-crypto/pkg/proofs/sigma/compiler/fiatshamir"
 
 	ad "verif/harness/adapters"
 	"verif/harness/proto"
@@ -828,7 +828,9 @@ func doSign(ep *epoch, Q []ID, msg []byte) {
 	w.Emit(base)
 }
 
-func samePolicy(a, b *ad.Policy) bool { return fmt.Sprint(*a) == fmt.Sprint(*b) && fmt.Sprint(a.Tree) == fmt.Sprint(b.Tree) }
+func samePolicy(a, b *ad.Policy) bool {
+	return fmt.Sprint(*a) == fmt.Sprint(*b) && fmt.Sprint(a.Tree) == fmt.Sprint(b.Tree)
+}
 
 func main() {
 	qf := flag.Uint64("q", 251, "toy field order")
